@@ -59,7 +59,7 @@ $(B)/oracle/opc.o: oracle/opc.cpp oracle/opc.h
 	@mkdir -p $(B)/oracle
 	$(CXX) $(STD) -O1 -g1 -c $< -o $@
 
-include harness.mk
+include $(sort $(wildcard cfg/*.mk))
 
 .PHONY: all
 all: $(ALL_BINS)
